@@ -511,7 +511,7 @@ Proof.
   { destruct mv; cbn [step] in Hstep;
       destruct (resolve st s) as [| | |sl i bi] eqn:R; try discriminate;
       destruct (find_box st nm) as [[jj bj]|] eqn:Hf; try discriminate.
-    - destruct (s_ro sl && c_alt ch); [discriminate|].
+    - destruct (s_ro sl); [discriminate|].
       destruct (pick_ok st s jj (c_pick ch)); [|discriminate].
       exists sl, i, bi. split; [reflexivity|]. split; [discriminate|]. exists jj. split; [eauto|].
       cbn zeta. destruct (copy_loop true i jj (c_pick ch) (filter (in_set set) (s_view sl)) st)
